@@ -64,6 +64,7 @@ def run(repo, rep):
     from . import c15
 
     rep.run_borrowed(c15, {"C15-e": "C04-f"}, repo, only_sites=("architecture_features", "register_command_stream_util"))
+    rule_round5(repo, rep)
 
 
 # ------------------------------------------------------------------ a
@@ -696,3 +697,33 @@ def rule_polarity(repo, rep):
             rep.check(a <= g, "C04-f'", f"{UFILE}:get_address_ranges_for_area", f"tile selected by `{norm(i.test)}` is clamped by its own extents {sorted(g)}",
                       f"clamps use {sorted(a - g)} which the guard does not mention")
     rep.floor("C04-f'", 14)
+
+
+def rule_round5(repo, rep):
+    """(g) what the hardware is told is what the wait logic reasoned about: a register write is elided only if the whole emitted word
+    pair equals the last one [shared with C06-e]; the coordinate fast path of intersects() is taken only for the very same feature
+    map geometry; the programmed DMA length is the length of the modelled ranges."""
+    from . import c06
+    from .shared import require_conjuncts
+
+    rep.clause("C04-g", "the accesses the waits are computed for are the accesses emitted: register elision compares the complete command word and payload [rule shared with C06-e]; "
+               "intersects() compares coordinates only when shape and the whole tile box (base addresses and split) agree; DMA0_LEN is the modelled source length")
+    rep.run_borrowed(c06, {"C06-e": "C04-g"}, repo, only_sites=("CommandStreamEmitter",))
+    ut = repo.mod("register_command_stream_util")
+    it = ut.func("intersects")
+    fast = [i_ for i_ in ast.walk(it) if isinstance(i_, ast.If) and any(isinstance(c_, ast.Call) and call_name(c_) == "coords_intersect" for b in i_.body for c_ in ast.walk(b))]
+    if len(fast) != 1:
+        raise AnalysisError("intersects: coordinate fast path not found")
+    require_conjuncts(rep, "C04-g", "ethosu/vela/register_command_stream_util.py:intersects", fast[0].test, ["ifm.shape == prev_ofm.shape", "ifm.tiles == prev_ofm.tiles"],
+                      "coordinates are compared instead of addresses", "equal coordinates of two feature maps with different tile geometry are different bytes: a consumer job that reads what the producer's last blocks write gets BLOCKDEP 3")
+    gen = repo.mod("register_command_stream_generator")
+    gd = gen.func("generate_dma_op")
+    ln = [c_ for c_ in ast.walk(gd) if isinstance(c_, ast.Call) and c_.args and str(norm(c_.args[0])) == "cmd1.NPU_SET_DMA0_LEN"]
+    if len(ln) != 1 or len(ln[0].args) < 2:
+        raise AnalysisError("generate_dma_op: DMA0_LEN emission not found")
+    acc = ut.func("get_dma_memory_accesses")
+    modelled = {str(norm(c_.args[0])) + ".length" for c_ in ast.walk(acc) if isinstance(c_, ast.Call) and call_name(c_) == "memory_range_set" and c_.args}
+    got = str(norm(ln[0].args[1]))
+    rep.check(got in modelled and got == "dma_op.src.length", "C04-g", "ethosu/vela/register_command_stream_generator.py:generate_dma_op", "DMA0_LEN is the source range's length, the length the access set models",
+              f"programs `{got}` while the access set is built from {sorted(modelled)}: the transfer touches bytes the wait logic does not know about")
+    rep.floor("C04-g", 4)
